@@ -692,3 +692,134 @@ func RKeyInj(c *core.Ctx) {
 		}
 	}
 }
+
+// ---------------------------------------------------------------------------
+// R-SETCODEC: the class serialiser and its reader have the same shape.
+// mapHashFill writes a class as a byte string (the set-table key, and the form
+// generated code hands to NewCharSetRuntime); NewCharSetRuntime reads it back.
+// Both are reduced to a signature of primitive operations — fixed-width
+// integers by width, raw strings, nested loops, optional tails, recursion into
+// the subtraction — and the signatures must be identical: a field written but
+// not read (or read with another width) shifts everything after it.
+// ---------------------------------------------------------------------------
+
+func RSetCodec(c *core.Ctx) {
+	c.Rule("R-SETCODEC", "CharSet.mapHashFill and NewCharSetRuntime perform the same sequence of primitive codec operations (byte, fixed-width integers by width, raw string, loops, optional tail, recursion into the subtraction): every value the writer emits is consumed by the reader with the same width at the same place", 1)
+	p := c.P
+	syn := p.Pkg("syntax")
+	info := syn.TypesInfo
+	wfd, _ := p.DeclOf(p.LookupFunc("syntax", "CharSet.mapHashFill"))
+	rfd, _ := p.DeclOf(p.LookupFunc("syntax", "NewCharSetRuntime"))
+	if wfd == nil || rfd == nil {
+		c.Anchor("CharSet.mapHashFill / NewCharSetRuntime")
+		return
+	}
+	c.Visit("syntax.(CharSet).mapHashFill")
+	c.Visit("syntax.NewCharSetRuntime")
+	width := func(t types.Type) string {
+		if pt, ok := t.Underlying().(*types.Pointer); ok {
+			t = pt.Elem()
+		}
+		if b, ok := t.Underlying().(*types.Basic); ok {
+			switch b.Kind() {
+			case types.Int8, types.Uint8:
+				return "1"
+			case types.Int16, types.Uint16:
+				return "2"
+			case types.Int32, types.Uint32:
+				return "4"
+			case types.Int64, types.Uint64:
+				return "8"
+			}
+		}
+		return "?"
+	}
+	var sigStmts func(list []ast.Stmt, self string) string
+	callSig := func(call *ast.CallExpr, self string) string {
+		switch f := call.Fun.(type) {
+		case *ast.SelectorExpr:
+			switch f.Sel.Name {
+			case "WriteByte", "ReadByte":
+				return "B1 "
+			case "WriteString", "Next":
+				return "S "
+			case "WriteRune", "ReadRune":
+				return "R "
+			case "Write", "Read":
+				if id, ok := f.X.(*ast.Ident); ok && id.Name == "binary" && len(call.Args) == 3 {
+					return "B" + width(info.TypeOf(call.Args[2])) + " "
+				}
+			case self:
+				return "REC "
+			}
+		case *ast.Ident:
+			if f.Name == self {
+				return "REC "
+			}
+		}
+		return ""
+	}
+	exprSig := func(n ast.Node, self string) string {
+		out := ""
+		ast.Inspect(n, func(x ast.Node) bool {
+			if _, ok := x.(*ast.FuncLit); ok {
+				return false
+			}
+			if call, ok := x.(*ast.CallExpr); ok {
+				// arguments first (evaluation order), then the call itself
+				for _, a := range call.Args {
+					ast.Inspect(a, func(y ast.Node) bool {
+						if c2, ok := y.(*ast.CallExpr); ok {
+							out += callSig(c2, self)
+						}
+						return true
+					})
+				}
+				out += callSig(call, self)
+				return false
+			}
+			return true
+		})
+		return out
+	}
+	sigStmts = func(list []ast.Stmt, self string) string {
+		out := ""
+		for _, st := range list {
+			switch x := st.(type) {
+			case *ast.ForStmt:
+				if body := sigStmts(x.Body.List, self); body != "" {
+					out += "L[ " + body + "] "
+				}
+			case *ast.RangeStmt:
+				if body := sigStmts(x.Body.List, self); body != "" {
+					out += "L[ " + body + "] "
+				}
+			case *ast.IfStmt:
+				a := sigStmts(x.Body.List, self)
+				b := ""
+				switch e := x.Else.(type) {
+				case *ast.BlockStmt:
+					b = sigStmts(e.List, self)
+				case *ast.IfStmt:
+					b = sigStmts([]ast.Stmt{e}, self)
+				}
+				switch {
+				case a == b:
+					out += a
+				case b == "":
+					out += "OPT[ " + a + "] "
+				default:
+					out += "IF[ " + a + "| " + b + "] "
+				}
+			case *ast.BlockStmt:
+				out += sigStmts(x.List, self)
+			default:
+				out += exprSig(st, self)
+			}
+		}
+		return out
+	}
+	w := sigStmts(wfd.Body.List, "mapHashFill")
+	r := sigStmts(rfd.Body.List, "NewCharSetRuntime")
+	c.Check(w == r && w != "", "mapHashFill / NewCharSetRuntime have the same codec signature", wfd.Pos(), "writer: %s; reader: %s", w, r)
+}
